@@ -15,6 +15,9 @@ TPed == /\ IsEv("pedersen")
         /\ \A i \in 1..Len(r.perturbed) :
               /\ r.perturbed[i].verdict = r.perturbed[i].recomputed_eq       \* exactness
               /\ ~r.perturbed[i].verdict                                      \* single perturbations never open
+        /\ \A i \in 1..Len(r.combined) : r.combined[i].verdict = r.combined[i].recomputed_eq   \* exactness for combined moves
+        /\ r.params = "generated" => /\ r.generators_distinct                              \* fresh generators: h, g_1 .. g_N pairwise different
+                                     /\ \A i \in 1..Len(r.combined) : ~r.combined[i].verdict
         /\ r.other.verdict = ~r.other.differs
 TNext == TPed
 TSpec == l = 1 /\ [][TNext]_l
